@@ -17,7 +17,7 @@ PROP = 'C14'
 LEVEL = 'exploration'
 DEPENDS = []
 GROUP_ENV = {'pure': {'NUMBA_DISABLE_JIT': '1'}, 'jit': {}}
-MIN_DECISIVE = {'quick': 100, 'thorough': 1000}
+MIN_DECISIVE = {'quick': 100, 'thorough': 800}
 CASE_TIMEOUT = 900
 RULE = ('each case = (monitor, implementation, use_static, RNG sub-seed) evaluated at 6 random points (colatitude in (0.1,pi-0.1), '
         'longitude, time, n in 1e-6..1e-4, spin/n in [-3,3], e in [0,0.4], obliquity in [0,1.2]); limit/anchor cases use fixed small-parameter ladders; '
